@@ -870,7 +870,12 @@ impl ModulePath {
         let base_dir = base.and_then(|b| b.parent()).unwrap_or("");
 
         let combined = if base_dir.is_empty() {
-            specifier.to_string()
+            if base.is_some_and(|b| b.as_str().starts_with('/')) {
+                // Importer directly under the root ("/main.ts"): its directory is "/"
+                format!("/{}", specifier)
+            } else {
+                specifier.to_string()
+            }
         } else {
             format!("{}/{}", base_dir, specifier)
         };
